@@ -438,8 +438,11 @@ def gen_meta(r, cid, big=False):
         restartfreq = [rf] * n
     else:
         restartfreq = [r.choice([0, 0, 2, 3, 4, 5]) for _ in range(n)]
-    span = (NB - 4) // n
-    nextbin = [2 + w * span for w in range(n)]
+    # margin 0: the first walker starts in bin 0 and the last one ends in the last bin: hills next to the boundaries, which
+    # the walkers (and their mirrors of the others) also keep in the list of hills treated off the grid
+    margin = r.choice([2, 2, 0])
+    span = (NB - 2 * margin) // n
+    nextbin = [margin + w * span for w in range(n)]
     lastbin = [None] * n
     started = [False] * n
     events = []
@@ -448,7 +451,7 @@ def gen_meta(r, cid, big=False):
 
     def do_step(w):
         b = nextbin[w]
-        nextbin[w] = 2 + w * span + ((nextbin[w] - 2 - w * span + 1) % span)
+        nextbin[w] = margin + w * span + ((nextbin[w] - margin - w * span - 1) % span if w == n - 1 else (nextbin[w] - margin - w * span + 1) % span)
         lastbin[w] = b
         started[w] = True
         events.append(["s", w, b])
@@ -481,7 +484,9 @@ def gen_meta(r, cid, big=False):
     if szd:
         events = no_zero_length_runs(events, {"s": (lambda e: e[1], "step"), "r": (lambda e: e[1], "restart")})
     return {"kind": "meta", "id": cid, "n": n, "nbins": NB, "hillfreq": hillfreq, "upfreq": upfreq,
-            "restartfreq": restartfreq, "lockstep": lock, "grids": r.random() < 0.7, "szd": szd, "events": events}
+            "restartfreq": restartfreq, "lockstep": lock, "grids": r.random() < 0.7, "szd": szd,
+            # no replicaID keyword: the name comes from the replica interface of the engine (its replica index)
+            "idfromcomm": r.random() < 0.25, "events": events}
 
 
 def meta_primitives(case):
@@ -690,7 +695,7 @@ def check_meta(run, exe, model, cases, scratch, fixflags="1 1"):
             for p in range(n):
                 if p == w:
                     continue
-                mid = "w%d" % p
+                mid = scen.rid(c, p)
                 mir = d["mirrors"].get(mid)
                 mq = mres[(w, p)][qidx[(w, p)][k]] if qidx[(w, p)].get(k) is not None and qidx[(w, p)][k] < len(mres[(w, p)]) else None
                 if mq is None:
@@ -1295,6 +1300,48 @@ def check_different_grids(run, exe, scratch):
 
 
 # ==========================================================================================
+# configurations outside the premises of the models: they must be refused, not run
+# ==========================================================================================
+
+def check_rejected_configs(run, exe, scratch):
+    """The models assume: every walker has a name, a registry, a positive exchange frequency, a grid fixed ahead of time
+    (no expandBoundaries) and projects its hills (no keepHills); shared ABF has no UI estimator and outputs at multiples of
+    the exchange frequency.  init_replicas_params() / colvarbias_abf::init() refuse everything else."""
+    d = os.path.join(scratch, "rej")
+    import shutil as _sh
+    _sh.rmtree(d, ignore_errors=True)
+    os.makedirs(d)
+    base = {"nbins": 8, "hillfreq": 1, "upfreq": 1}
+    reg = os.path.join(d, "registry.txt")
+
+    def meta(drop=None, add=()):
+        L = [x for x in scen.meta_conf(base, "w0", reg) if not (drop and x.strip().startswith(drop))]
+        return L[:-1] + list(add) + ["}"]
+
+    def abf(add):
+        L = scen.abf_conf({"nd": 1, "nbins": [3], "freq": 2})
+        return L[:-1] + list(add) + ["}"]
+    cases = [
+        ("meta:no-replicaID-and-no-replica-interface", meta(drop="replicaID")),
+        ("meta:no-registry", meta(drop="replicasRegistry")),
+        ("meta:replicaUpdateFrequency-0", meta(drop="replicaUpdateFrequency", add=["  replicaUpdateFrequency 0"])),
+        ("meta:keepHills", meta(add=["  keepHills on"])),
+        ("abf:outputFreq-not-a-multiple-of-sharedFreq", ["colvarsTrajFrequency 0"] + abf(["  outputFreq 3"])),
+    ]
+    for name, conf in cases:
+        run.count("rejected-config:" + name, True)
+        run.dist("rejected-config")
+        rc, out, err = V.run_lines(exe, ["natoms 1", "new", "config EOF"] + conf + ["EOF", "errtext"], timeout=60, cwd=d)
+        cl = [x for x in out if x.startswith("CONFIG")]
+        if rc != 0 or not cl:
+            run.violation("config:walker-crashed", "configuration %s: the walker ended with rc=%s, output %s" % (name, rc, out[-3:]),
+                          {"kind": "rejected-config", "name": name, "conf": conf})
+        elif "err=ok" in cl[0] and "nbias=1" in cl[0]:
+            run.violation("config:accepted-outside-the-premises", "configuration %s was accepted (%s): the models of C14 do not describe what such "
+                          "walkers do" % (name, cl[0]), {"kind": "rejected-config", "name": name, "conf": conf})
+
+
+# ==========================================================================================
 # the order of the two halves of write_state_to_replicas, as the operating system sees it
 # ==========================================================================================
 
@@ -1374,6 +1421,7 @@ def check(run):
     try:
         check_rewrite_order(run, exe, scratch)
         check_different_grids(run, exe, scratch)
+        check_rejected_configs(run, exe, scratch)
         run_cases(run, exe, model, load_corpus(), scratch)
         na, nm, nv, nr = (60, 45, 30, 12) if quick else (1500, 1200, 800, 300)
         big = not quick      # more than four walkers: thorough tier only
